@@ -115,6 +115,9 @@ func (w *world) kvHook(kv, op, key string) error {
 }
 
 func (w *world) mutating(label string) error {
+	if w.runaway && !w.quiet {
+		return errFrozen // stop a pack that does not terminate: refuse every write
+	}
 	if w.quiet || !w.armed {
 		return nil
 	}
